@@ -172,7 +172,7 @@ def bytes_to_term(bs) -> z3.BitVecRef:
 
 
 class Driver:
-    """Plain ByteVec objects; `cls` may be a subclass (negative controls, candidate fix)."""
+    """Plain ByteVec objects; `cls` may be a subclass (negative controls)."""
 
     name = "ByteVec"
     cls = ByteVec
@@ -287,8 +287,10 @@ class StateDriver(Driver):
             if d["k"] == "vec":
                 # the fast path of copy_returndata_to_memory: the returndata object itself is written
                 copy_returndata_to_memory(src, c["off"], len(src), SimpleNamespace(st=st))
-            elif d["k"] == "slice" and d["a"] == 0 and 0 < d["n"] < len(src) and self.rnd.random() < 0.5:
-                # ret_size < len(returndata): a proper prefix of the returndata is written (a copy)
+            elif (d["k"] == "slice" and d["a"] == 0 and 0 < d["n"] <= len(src) and self.rnd.random() < 0.5
+                  and (d["n"] < len(src) or d["w"] != c["v"])):
+                # ret_size <= len(returndata): a prefix of the returndata (or, on the fast path, the
+                # returndata object itself - but never the memory passed to itself) is written
                 copy_returndata_to_memory(src, c["off"], d["n"], SimpleNamespace(st=st))
             else:
                 st.set_mslice(c["off"], self.as_bytevec(d))
@@ -309,8 +311,8 @@ class StateDriver(Driver):
 
 
 # ---------------------------------------------------------------------------------------------
-# deliberately wrong / candidate-fix variants of ByteVec, built from the source of the real methods
-# in this process (nothing under /repo is touched)
+# deliberately wrong variants of ByteVec, built from the CURRENT source text of the real methods in this
+# process (nothing under /repo is touched); every pattern must occur exactly once, else MachineryError
 
 
 def _variant(name: str, method: str, edits: list[tuple[str, str]], extra_methods: dict | None = None):
@@ -321,7 +323,11 @@ def _variant(name: str, method: str, edits: list[tuple[str, str]], extra_methods
         src = src.replace("self.__", "self._ByteVec__")
         for old, new in edits:
             if src.count(old) != 1:
-                raise MachineryError(f"variant {name}: pattern {old!r} occurs {src.count(old)} times in {method}")
+                raise MachineryError(
+                    f"broken-ByteVec variant {name!r} cannot be built: the source pattern {old!r} occurs "
+                    f"{src.count(old)} times (expected exactly once) in the current ByteVec.{method} of "
+                    f"{inspect.getsourcefile(ByteVec)}; update variant_classes() in harness/bytevec_replay.py"
+                )
             src = src.replace(old, new)
         exec(compile(src, f"<{name}.{method}>", "exec"), ns)  # noqa: S102
         body[method] = ns[method]
@@ -366,13 +372,11 @@ def variant_classes() -> dict:
                                           "num_missing_bytes = max(0, expected_length - len(result) - 1)")]),
         True,
     )
-    # the one-line repair of bytevec-aligned-nested-alias: a ByteVec value never takes the aligned
-    # fast path, it is unpacked into its chunks by the general path
-    v["fix-aligned-unpack"] = (
-        _variant("FixAligned", "set_slice",
-                 [("if start == first_chunk.start and stop == first_chunk.end:",
-                   "if start == first_chunk.start and stop == first_chunk.end and not isinstance(value, ByteVec):")]),
-        False,
+    # the defect repaired by halmos commit 1a97aee (finding bytevec-aligned-nested-alias) brought back:
+    # the aligned fast path of set_slice is taken for ByteVec values again and stores them by reference
+    v["reintroduce-aligned-alias"] = (
+        _variant("AlignedAlias", "set_slice", [("and not isinstance(value, ByteVec)", "")]),
+        True,
     )
     return v
 
